@@ -13,13 +13,15 @@ if ! git -C $WT apply --check $D/patch.diff 2>/dev/null; then
   if git -C $WT apply --3way $D/patch.diff 2>/dev/null || patch -d $WT -p1 --fuzz=3 < $D/patch.diff; then echo "patch applied with fuzz/3way"; else echo "RESULT: patch-does-not-apply"; exit 1; fi
 else git -C $WT apply $D/patch.diff; fi
 git -C $WT diff > $D/patch.rebased.diff
-mkdir -p /tmp/csd-$TAG
+mkdir -p /tmp/csd-$TAG/clean-tree
+git -C /repo archive HEAD include | tar -x -C /tmp/csd-$TAG/clean-tree   # pristine headers (the /repo working tree may carry a seed under test)
+CLEAN=/tmp/csd-$TAG/clean-tree/include
 build_demo() { # inc flags out
   g++ -std=c++14 -O1 -I$1 $2 $D/demo.cpp -o $3 -pthread 2>&1 | tail -3
 }
 verdict=""
 for FL in "" "-fsanitize=address" "-fsanitize=thread"; do
-  build_demo /repo/include "$FL" /tmp/csd-$TAG/clean || continue
+  build_demo $CLEAN "$FL" /tmp/csd-$TAG/clean || continue
   build_demo $WT/include "$FL" /tmp/csd-$TAG/mut || continue
   ok_clean=1; for i in 1 2; do timeout 120 /tmp/csd-$TAG/clean >/tmp/csd-$TAG/c.log 2>&1 || ok_clean=0; done
   fail_mut=1; for i in 1 2; do if timeout 120 /tmp/csd-$TAG/mut >/tmp/csd-$TAG/m.log 2>&1; then fail_mut=0; fi; done
